@@ -196,6 +196,27 @@ func init() {
 	reg("sort.Slice", sortSlice)
 	reg("sort.SliceStable", sortSlice)
 
+	// bloom's murmur block mixer reads 16-byte blocks through an unsafe array view; the same loop
+	// over the slice, calling the library's own bmix_words
+	reg("(*github.com/bits-and-blooms/bloom/v3.digest128).bmix", func(in *Interp, c *Frame, fn *ssa.Function, a []Value) Value {
+		bs := in.sliceBytes(a[1])
+		mw := in.methodOf(fn.Signature.Recv().Type(), "bmix_words")
+		if mw == nil {
+			in.unsupported("bloom: bmix_words not found")
+		}
+		le := func(b []*Term) *Term {
+			acc := b[7]
+			for i := 6; i >= 0; i-- {
+				acc = in.st.Concat(acc, b[i])
+			}
+			return acc
+		}
+		for i := 0; i+16 <= len(bs); i += 16 {
+			in.dispatch(mw, []Value{a[0], le(bs[i : i+8]), le(bs[i+8 : i+16])}, c)
+		}
+		return nil
+	})
+
 	reg("maps.clone", func(in *Interp, c *Frame, fn *ssa.Function, a []Value) Value {
 		iv := a[0].(Iface)
 		m, _ := iv.v.(*MapObj)
